@@ -27,7 +27,7 @@ use yash_env::source::Location;
 use yash_env::source::pretty::{Report, ReportType, Snippet, Span, SpanRole, add_span};
 
 /// List of all options supported by the `unalias` built-in
-pub const OPTION_SPECS: &[OptionSpec] = &[OptionSpec::new().short('a')];
+pub const OPTION_SPECS: &[OptionSpec] = &[OptionSpec::new().short('a').long("all")];
 
 /// Errors that can occur while parsing command line arguments
 #[derive(Clone, Debug, Eq, Error, PartialEq)]
